@@ -1,6 +1,7 @@
 package main
 
 import (
+	"bytes"
 	"context"
 	"fmt"
 	"io"
@@ -143,9 +144,102 @@ func (c *ctx) codecCase(id xsens.DataIdentifier, wire uint16, data []byte) {
 				return
 			}
 			viaEmu = "(ROk " + nlist(p) + ")"
+			// every 8th case: the configuration arrives as a command, after a longer one that had the same data type in
+			// another format further back (the newest configuration alone counts)
+			if c.emuReconf%8 == 0 {
+				other := hid
+				other.Precision = (hid.Precision + 1) % 4
+				other.CoordinateSystem = (hid.CoordinateSystem + 4) % 12
+				first := xsens.OutputConfiguration{{DataIdentifier: xsens.DataIdentifier{DataType: xsens.DataTypePacketCounter}, OutputFrequency: 100},
+					{DataIdentifier: other, OutputFrequency: 100}}
+				q, err := emuMarshalAfter([]xsens.OutputConfiguration{first, {{DataIdentifier: hid, OutputFrequency: 100}}}, pre, hid.DataType)
+				if err != nil {
+					viaEmu = "RErr"
+				} else if !bytes.Equal(q, p) {
+					viaEmu = "(ROk " + nlist(q) + ")"
+				}
+			}
+			c.emuReconf++
 		})
 		c.emit("codec", tup("\""+ty+"\"", zs(int64(wire))+"%Z", nlist(data), dec, viaEmu, cbool(unchanged)))
 		c.count("encoded-through-emulator")
+	}
+}
+
+// codecTrunc: a packet whose length byte announces the full size but whose slice ends earlier (a packet cut off by
+// the end of a payload), with no spare capacity and with spare capacity behind it: the decoder must refuse it and
+// leave the destination alone, whatever lies behind the slice
+func (c *ctx) codecTrunc(id xsens.DataIdentifier, wire uint16, data []byte, full int) {
+	if valueOfType(id) == nil {
+		return
+	}
+	for _, extra := range []int{0, 16} {
+		pre := valueOfType(id)
+		ty := reflect.TypeOf(pre).Elem().Name()
+		p0 := append([]byte{byte(wire >> 8), byte(wire), byte(full)}, c.dataPattern(full, 2)...)
+		protect(func() { _ = pre.UnmarshalMTData2Packet(xsens.MTData2Packet(p0)) })
+		before := valueTerm(pre)
+		pkt := append([]byte{byte(wire >> 8), byte(wire), byte(full)}, data...)
+		var buf []byte
+		if extra == 0 {
+			buf = exact(pkt)
+		} else {
+			buf = roomy(pkt, extra)
+		}
+		dec, reenc := "RPan", "RPan"
+		unchanged := true
+		protect(func() {
+			if err := pre.UnmarshalMTData2Packet(xsens.MTData2Packet(buf)); err != nil {
+				dec, reenc = "RErr", "RErr"
+				unchanged = valueTerm(pre) == before
+				return
+			}
+			dec, reenc = "(ROk "+valueTerm(pre)+")", "RErr"
+		})
+		c.emit("codec", tup("\""+ty+"\"", zs(int64(wire))+"%Z", nlist(data), dec, reenc, cbool(unchanged)))
+		c.count("cut-off-packets")
+	}
+}
+
+// codecViaClient: packets (fixed-point data biased to the ends of the range) decoded by a client; the value the client
+// hands out is compared with the reference decoding of the packet's bytes, and re-encoded under the packet's identifier
+func (c *ctx) codecViaClient(count int) {
+	for i := 0; i < count; i++ {
+		pkt := c.packet(0)
+		if c.rng.Intn(4) == 0 {
+			pkt[1] = pkt[1]&^3 | 2 // FP16.32 more often
+			var id xsens.DataIdentifier
+			id.SetUint16(uint16(pkt[0])<<8 | uint16(pkt[1]))
+			n := int(id.DataSize())
+			pkt = append(pkt[:2:2], byte(n))
+			d := c.payload(n)
+			for g := 0; 6*g+5 < n; g++ {
+				d[6*g+4] = []byte{0x80, 0x80, 0x7f, 0xff, 0x81}[c.rng.Intn(5)]
+			}
+			pkt = append(pkt, d...)
+		}
+		cl := xsens.NewClient(&scriptedPort{r: &chunkReader{data: xsens.NewMessage(xsens.MessageIdentifierMTData2, pkt), final: io.EOF}})
+		var md xsens.MeasurementData
+		protect(func() {
+			if cl.Receive(context.Background()) == nil && cl.ScanMeasurementData() {
+				md = cl.MeasurementData()
+			}
+		})
+		if md == nil || reflect.ValueOf(md).IsNil() {
+			continue
+		}
+		wire := uint16(pkt[0])<<8 | uint16(pkt[1])
+		dec, reenc := "(ROk "+valueTerm(md)+")", "RPan"
+		protect(func() {
+			p, err := md.MarshalMTData2Packet(xsens.MTData2Packet(pkt).Identifier())
+			if err != nil {
+				reenc = "RErr"
+				return
+			}
+			reenc = "(ROk " + nlist(p) + ")"
+		})
+		c.emit("codec", tup("\""+reflect.TypeOf(md).Elem().Name()+"\"", zs(int64(wire))+"%Z", nlist(pkt[3:]), dec, reenc, "true"))
+		c.count("decoded-by-client")
 	}
 }
 
@@ -172,7 +266,7 @@ func (c *ctx) codecPairs() {
 				if cl.Receive(context.Background()) != nil {
 					return
 				}
-				for cl.ScanMeasurementData() {
+				for steps := 0; steps < 4096 && cl.ScanMeasurementData(); steps++ {
 					if n == 0 {
 						first = cl.MeasurementData()
 					}
@@ -225,6 +319,10 @@ func init() {
 					}
 					if coord == 0 {
 						c.codecCase(id, wire, c.dataPattern(n+3, 2))
+						if n > 0 {
+							c.codecTrunc(id, wire, c.dataPattern(n-1, 5), n)
+							c.codecTrunc(id, wire, c.dataPattern(n/2, 5), n)
+						}
 					}
 					// reserved identifier bits set on the wire
 					if coord == 0 {
